@@ -28,11 +28,20 @@ class CaseTimeout(BaseException):
     """one oracle call exceeded CASE_TIMEOUT seconds (inconclusive case, never a violation)"""
 
 
+class ShrinkTimeout(BaseException):
+    """the shrink phase exceeded its wall-clock budget: report the smallest failure seen so far"""
+
+
 CASE_TIMEOUT = 60
+SHRINK_BUDGET = {'quick': 60, 'thorough': 240}
 
 
 def _on_alarm(signum, frame):
     raise CaseTimeout()
+
+
+def _on_usr2(signum, frame):
+    raise ShrinkTimeout()
 
 
 def canon(x):
@@ -76,7 +85,10 @@ def worker(args):
             import signal
             faulthandler.register(signal.SIGUSR1, all_threads=True)
         import signal
+        import threading
         signal.signal(signal.SIGALRM, _on_alarm)
+        signal.signal(signal.SIGUSR2, _on_usr2)
+        watchdog = []
         import hypothesis
         from hypothesis import given, settings, HealthCheck, Phase
         import hypothesis.internal.conjecture.engine as eng
@@ -116,8 +128,17 @@ def worker(args):
             if matched:
                 res['excluded_known'] += 1
             if unknown:
-                last['case'] = case
-                last['violations'] = unknown
+                size = len(canon(jsonable(case)))
+                if 'case' not in last or size <= last['size']:
+                    last['case'], last['violations'], last['size'] = case, unknown, size
+                if not watchdog:
+                    # Hypothesis' own shrink deadline is only checked between test calls; a hard
+                    # wall-clock budget makes sure the check terminates
+                    t = threading.Timer(SHRINK_BUDGET[tier],
+                                        lambda: os.kill(os.getpid(), signal.SIGUSR2))
+                    t.daemon = True
+                    t.start()
+                    watchdog.append(t)
                 raise Found(unknown[0]['kind'])
 
         phases = [Phase.generate, Phase.shrink]
@@ -127,8 +148,14 @@ def worker(args):
                         report_multiple_bugs=False, derandomize=False, print_blob=False,
                         suppress_health_check=list(HealthCheck))(test)
         try:
-            test()
-        except Found:
+            try:
+                test()
+            finally:
+                for t in watchdog:
+                    t.cancel()
+        except (Found, ShrinkTimeout) as e:
+            if isinstance(e, ShrinkTimeout):
+                res['labels']['shrinking stopped at its wall-clock budget'] = 1
             res['fail'] = {'case': jsonable(last['case']),
                            'violations': jsonable(last['violations'])}
         except Exception:
